@@ -1,6 +1,6 @@
 (* C09 — merge loses nothing when inputs agree on names; identity and fold laws. *)
 From Sigtools.Model Require Import Base Bind Roles Algebra Universe.
-From Sigtools.Proofs Require Import SmallModel Basics SweepDefs Bounded MergeNeutral.
+From Sigtools.Proofs Require Import SmallModel Basics SweepDefs Bounded MergeNeutral SweepDefs2 SweepDefs3 Bounded3.
 
 (* apply_params(s, *sort_params(s)) equals s, for all valid signatures *)
 Theorem C09_sort_apply_roundtrip s :
@@ -51,3 +51,11 @@ Theorem C09_neutral_right s nva nvk sr dr :
                             None UEmpty sr dr] = Ok r /\ params r = params s.
 Proof. exact (merge_right_neutral s nva nvk sr dr). Qed.
 Print Assumptions C09_neutral_right.
+
+(* Bounded (bound in the statement): the fold law in parameters AND provenance for
+   every role-consistent triple of U(1,{a,b}), each input owned by its own callable *)
+Theorem C09_fold_law_U1 a b c :
+  In a U1ab -> In b U1ab -> In c U1ab -> role_consistent [a; b; c] = true ->
+  fold_check a b c = true.
+Proof. exact (merge_fold_law_U1 a b c). Qed.
+Print Assumptions C09_fold_law_U1.
